@@ -10,6 +10,7 @@ from vf.runner import Collector
 from vf.scriptgen import Assign, Bin, Call, For, If, Lit, Raw, Var, While
 
 ID = "C02"
+EARLY_ATTRIBUTION = True  # region predicates are cheap scans of the stored case
 LEVEL = "exploration"
 RULE = ("All C01 grammar programs plus near-miss programs obtained by one grammar-violating mutation (variable undefined on one "
         "path, return inside a branch/loop, unsupported statements: augmented assignment, del, try, with, comprehension, chained "
